@@ -40,6 +40,7 @@ type c20In struct {
 	Panics [][3]int   `json:"panics"` // oracle: (step, op, name) whose callback panics; op 0 Init 1 Inherit 2 Close
 	Mode   int        `json:"mode"`
 	NameStr []string  `json:"namestr,omitempty"` // object names (default n0, n1, ...)
+	Spell   int       `json:"spell,omitempty"`   // spelling of the stored config strings (see c20Yaml)
 	Block   []int     `json:"block,omitempty"`   // group backlog: (step, name) whose Init/Inherit stalls while the later snapshots arrive
 }
 
@@ -444,7 +445,19 @@ func c20Setup() {
 	})
 }
 
+// spelling of the stored config strings of the running case. None of 0..2 is the normalised
+// yaml Spec.YAMLConfig() produces (sorted keys, version line, plain scalars); 3 is close to it.
+var c20Spell int
+
 func c20Yaml(name string, kind string, v int) string {
+	switch c20Spell {
+	case 1:
+		return fmt.Sprintf("kind: %s\nv: %d\n\nname: '%s'\n", kind, v, name)
+	case 2:
+		return fmt.Sprintf("{name: \"%s\", v: %d, kind: %s}\n", name, v, kind)
+	case 3:
+		return fmt.Sprintf("kind: %s\nname: \"%s\"\nv: %d\nversion: %s\n", kind, name, v, DefaultSpecVersion)
+	}
 	return fmt.Sprintf("name: \"%s\"\nkind: %s\nv: %d\n", name, kind, v)
 }
 
@@ -681,6 +694,8 @@ func c20RunE2E(t *testing.T, in c20In) (obs c20Obs) {
 
 func c20Run(t *testing.T, in c20In) c20Obs {
 	c20UseNames(in.Names, in.NameStr)
+	c20Spell = in.Spell
+	defer func() { c20Spell = 0 }()
 	if in.Mode == 1 {
 		return c20RunE2E(t, in)
 	}
@@ -844,6 +859,8 @@ func c20TickOf(ev *ObjectEntityWatcherEvent) int {
 func c20RunBacklog(in c20In) (obs c20Obs) {
 	obs.Crash = -1
 	c20UseNames(in.Names, in.NameStr)
+	c20Spell = in.Spell
+	defer func() { c20Spell = 0 }()
 	s := &Supervisor{options: &option.Options{}}
 	or := &ObjectRegistry{super: s, entities: map[string]*ObjectEntity{}, watchers: map[string]*ObjectEntityWatcher{}}
 	s.objectRegistry = or
@@ -1030,6 +1047,74 @@ func c20GenBacklog(r *vfRand, adv bool, tier string) c20In {
 	return in
 }
 
+// long histories: one supervisor sees well over a hundred DISTINCT config strings (one object
+// reconfigured 130..300 times, others now and then), then configs are rolled back to early
+// ones, byte for byte. What the live generation runs is observed through the content id the
+// instance itself read from the spec it was given.
+func c20GenLong(r *vfRand, tier string) c20In {
+	in := c20In{Kinds: c20KindTable(), Panics: [][3]int{}}
+	in.Names = r.Range(1, 3)
+	in.Spell = r.Intn(4)
+	n := r.Range(130, 190)
+	if tier == "thorough" {
+		n = r.Range(130, 300)
+	}
+	kinds := []int{r.Intn(2), r.Intn(2), r.Intn(2)}
+	vs := []int{0, 0, 0}
+	present := []bool{true, r.Bool(), r.Bool()}
+	snap := func() [][3]int {
+		st := [][3]int{}
+		for k := 0; k < in.Names; k++ {
+			if present[k] {
+				st = append(st, [3]int{k, kinds[k], vs[k]})
+			}
+		}
+		return st
+	}
+	for t := 0; t < n; t++ {
+		vs[0] = t // a new config string every snapshot
+		for k := 1; k < in.Names; k++ {
+			switch r.Intn(8) {
+			case 0:
+				present[k] = !present[k]
+			case 1, 2:
+				vs[k] = 1000*k + t
+			}
+		}
+		in.Steps = append(in.Steps, snap())
+	}
+	// rollbacks to configs seen long ago, with unchanged re-deliveries in between
+	for j := r.Range(3, 7); j > 0; j-- {
+		for k := 0; k < in.Names; k++ {
+			switch r.Intn(4) {
+			case 0: // back to an early config of this name
+				vs[k] = r.Intn(n / 3)
+				if k > 0 {
+					vs[k] = 1000*k + vs[k]
+				}
+				present[k] = true
+			case 1:
+				present[k] = k == 0 || !present[k]
+			case 2:
+				vs[k] = vs[k] + 1
+			}
+		}
+		if j%2 == 0 {
+			vs[0] = r.Intn(3) // the very first configs of the run
+		}
+		in.Steps = append(in.Steps, snap())
+		if r.Bool() {
+			in.Steps = append(in.Steps, snap())
+		}
+	}
+	for t := 0; t < len(in.Steps); t++ {
+		if r.Chance(1, 40) {
+			in.Panics = append(in.Panics, [3]int{t, r.Intn(3), r.Intn(in.Names)})
+		}
+	}
+	return in
+}
+
 // ---------------------------------------------------------------- generator
 
 var c20BizKinds = []int{0, 1}
@@ -1182,6 +1267,12 @@ func TestVerifC20(t *testing.T) {
 	n := vfN(300)
 	for i := 0; i < n; i++ {
 		r := root.Fork(i)
+		if i%170 == 7 { // a long history: many distinct configs, then rollbacks (one or two per quick run)
+			lin := c20GenLong(r, vfTier())
+			out.Emit(vfCase{ID: fmt.Sprintf("long-%d-%d", vfSeed(), i), Src: src, Grp: "sup", In: lin, Obs: c20Run(t, lin)})
+			out.w.Flush()
+			continue
+		}
 		if i%12 == 5 { // a stalled handler and a burst of snapshots
 			bin := c20GenBacklog(r, adv, vfTier())
 			out.Emit(vfCase{ID: fmt.Sprintf("backlog-%d-%d", vfSeed(), i), Src: src, Grp: "backlog", In: bin, Obs: c20RunBacklog(bin)})
